@@ -32,10 +32,13 @@ FORMAT_DIGITS = {
 
 
 def value_tolerance(fmt, plain):
-    """(k_rel, con_abs, coef_abs): bound on the change of an orbital value by print rounding.
+    """(k_rel, con_abs, coef_abs, dcoord): bound on the change of an orbital value by rounding.
 
-    |psi' - psi| <= sum_mu |C_mu| (k_rel |phi_mu|_abs + |phi_mu|_abs[D := con_abs])
+    |psi' - psi| <= sum_mu |C_mu| (k_rel |phi_mu|_abs + |phi_mu|_abs[D := con_abs]
+                                   + dcoord |grad phi_mu|_abs)
                     + coef_abs sum_mu |phi_mu|_abs + 1e-10
+    (the gradient term matters near the nodal planes of tight functions, where the relative
+    change of a function under a coordinate rounding is unbounded)
     """
     dig = FORMAT_DIGITS[fmt]
     exps = np.concatenate([np.asarray(sh["exponents"], dtype=float) for sh in plain["shells"]])
@@ -43,9 +46,10 @@ def value_tolerance(fmt, plain):
     cmax = np.abs(np.asarray(plain["centers"])).max() if len(plain["centers"]) else 0.0
     dcoord = dig.get("coord", 0.0) + dig.get("coord_rel", 0.0) * cmax
     eps_exp = dig.get("exp_rel", 0.0) + dig.get("exp_abs", 0.0) / amin
-    k = 30 * eps_exp + 6 * np.sqrt(amax) * dcoord + 4 * dig.get("coef_rel", 0.0)
+    del eps_exp, amax
+    k = 4 * dig.get("coef_rel", 0.0)
     con_abs = dig.get("con_abs", dig.get("exp_abs", 0.0))
-    return 4 * k + 1e-12, 4 * con_abs, 4 * dig.get("coef_abs", 0.0)
+    return 4 * k + 1e-12, 4 * con_abs, 4 * dig.get("coef_abs", 0.0), 2 * dcoord
 
 
 def mo_from_iodata(mo):
@@ -121,8 +125,10 @@ def compare(truth, loaded, fmt, seed, prefix, ambiguous_spin=False, npoint=30):
     except Exception as exc:
         out.append(("basis_unreadable", f"cannot evaluate loaded basis: {exc!r}"))
         return out
-    k, con_abs, coef_abs = value_tolerance(fmt, b0)
+    k, con_abs, coef_abs, dcoord = value_tolerance(fmt, b0)
     abs0 = G.eval_basis_abs(b0, pts)
+    grad0 = G.eval_basis_abs_grad(b0, pts) * dcoord
+    grad0 = grad0 + 2 * G.eval_basis_abs_exp(b0, pts, dig.get("exp_rel", 0.0), dig.get("exp_abs", 0.0))
     abs_delta = G.eval_basis_abs(b0, pts, con_abs) if con_abs else np.zeros_like(abs0)
     m0, m1 = truth["mo"], loaded["mo"]
     if m1["coeffs"] is None or m1["coeffs"].shape[0] != phi1.shape[0]:
@@ -152,7 +158,9 @@ def compare(truth, loaded, fmt, seed, prefix, ambiguous_spin=False, npoint=30):
         v0 = cf0.T @ phi0
         v1 = cf1.T @ phi1
         scale = np.abs(cf0).T @ abs0
-        tolv = k * scale + np.abs(cf0).T @ abs_delta + coef_abs * abs0.sum(axis=0) + 1e-10
+        tolv = (
+            k * scale + np.abs(cf0).T @ (abs_delta + grad0) + coef_abs * abs0.sum(axis=0) + 1e-10
+        )
         bad = np.abs(v1 - v0) > tolv
         if bad.any():
             iorb = int(np.argmax(bad.any(axis=1)))
@@ -181,9 +189,7 @@ def compare(truth, loaded, fmt, seed, prefix, ambiguous_spin=False, npoint=30):
         rho0 = np.einsum("ap,ab,bp->p", phi0, dm0, phi0)
         rho1 = np.einsum("ap,ab,bp->p", phi1, dm1, phi1)
         scale = np.einsum("ap,ab,bp->p", abs0, np.abs(dm0), abs0)
-        extra = 0.0
-        if con_abs:
-            extra = 2 * np.einsum("ap,ab,bp->p", abs_delta, np.abs(dm0), abs0)
+        extra = 2 * np.einsum("ap,ab,bp->p", abs_delta + grad0, np.abs(dm0), abs0)
         if (np.abs(rho1 - rho0) > 3 * k * scale + extra + 1e-10).any():
             out.append(("density_matrix", f"one_rdms[{key!r}] denotes a different density"))
     return [(f"{prefix}/{name}", msg) for name, msg in out]
